@@ -653,6 +653,8 @@ func TestC18(t *testing.T) {
 		"'same last accepted block as a node that never crashed' is read as: restarted last accepted height in [last Accept that returned, last Accept that was called], and root/results equal to a never-crashed node that accepted exactly the blocks up to that height",
 		"'in height order' is read as non-decreasing heights within each process (re-delivery of the same height is allowed by 'at least once'); genesis is not an accepted block",
 		"'restarting succeeds' includes the SetState(Bootstrapping)->SetState(NormalOp) transitions the engine performs after Initialize, when the never-crashed node passes them too",
+		"a delivery is the accepted block of that height (id equal to the built block) carrying one execution result per transaction; deliveries with another id or result count are reported under their own keys",
+		"the restarted node may finish re-processing after Initialize returns; it is compared once its last processed block equals its last accepted block, and reported as lagging only with a quiescence witness",
 		"reference node = same code, never crashed (the statement's own comparison object)",
 	)
 	type cfg struct {
